@@ -949,7 +949,9 @@ def call_math(it, name, args, kwargs):
     if name == "isclose":
         rel = kwargs.get("rel_tol", Fraction(1, 10**9))
         ab = kwargs.get("abs_tol", 0)
-        return isclose(it, it.unwrap(args[0]), it.unwrap(args[1]), rel, ab)
+        a = args[0] if args else kwargs["a"]
+        b = args[1] if len(args) > 1 else kwargs["b"]
+        return isclose(it, it.unwrap(a), it.unwrap(b), rel, ab)
     if name == "isnan":
         x = it.unwrap(args[0])
         if kind_of(x) == "fp":
